@@ -140,6 +140,7 @@ type retInfo struct {
 }
 
 type Frame struct {
+	ghostArgs    []Val
 	vc           *VC
 	fn           *ssa.Function
 	id           string
@@ -558,7 +559,7 @@ func (fr *Frame) modVarsOfBlocks(blocks map[*ssa.BasicBlock]bool) *ModSet {
 					if c, ok := in.(ssa.CallInstruction); ok {
 						if cal := c.Common().StaticCallee(); cal != nil {
 							short := fr.vc.e.shortName(cal.String())
-							if gs.Callee == shortFn(short) || gs.Callee == short {
+							if gs.Callee == shortFn(short) || gs.Callee == short || (strings.HasSuffix(gs.Callee, "*") && strings.HasPrefix(shortFn(short), strings.TrimSuffix(gs.Callee, "*"))) {
 								ms.Ghost[gs.Var] = true
 							}
 						}
